@@ -40,8 +40,9 @@ func (c *verifConn) closeWithTransportError(qerr.TransportErrorCode) {}
 
 // VerifHandlerMap is a real packetHandlerMap (a Transport with only the maps initialised).
 type VerifHandlerMap struct {
-	h    *packetHandlerMap
-	conn *verifConn
+	h     *packetHandlerMap
+	conn  *verifConn
+	conn2 *verifConn // a second connection dialled on the same transport
 }
 
 func VerifNewHandlerMap() *VerifHandlerMap {
@@ -51,12 +52,20 @@ func VerifNewHandlerMap() *VerifHandlerMap {
 		closeQueue:  make(chan closePacket, 4),
 		logger:      utils.DefaultLogger,
 	}
-	return &VerifHandlerMap{h: (*packetHandlerMap)(t), conn: &verifConn{}}
+	return &VerifHandlerMap{h: (*packetHandlerMap)(t), conn: &verifConn{}, conn2: &verifConn{}}
 }
 
 // AddInitial registers a connection ID for the live connection the way Transport.dial / the server do.
 func (v *VerifHandlerMap) AddInitial(id []byte) bool {
 	return v.h.Add(protocol.ParseConnectionID(id), v.conn)
+}
+
+// InstallSecond registers the second connection for a source connection ID exactly as Transport.dial does
+// (`t.handlers[srcConnID] = conn` under the mutex): with zero-length connection IDs every dial uses the empty ID.
+func (v *VerifHandlerMap) InstallSecond(id []byte) {
+	v.h.mutex.Lock()
+	v.h.handlers[protocol.ParseConnectionID(id)] = v.conn2
+	v.h.mutex.Unlock()
 }
 
 // Routes lists every connection ID in the handler map with the kind of its handler, sorted.
@@ -70,9 +79,12 @@ func (v *VerifHandlerMap) Routes() (ids [][]byte, kinds []string) {
 	var l []ent
 	for id, hd := range v.h.handlers {
 		k := "other"
-		switch hd.(type) {
+		switch x := hd.(type) {
 		case *verifConn:
 			k = "conn"
+			if x == v.conn2 {
+				k = "conn2"
+			}
 		case *closedLocalConn:
 			k = "local"
 		case *closedRemoteConn:
@@ -120,9 +132,12 @@ func (v *VerifHandlerMap) Deliver(id []byte) (kind string, reachedConn bool, clo
 		}
 		break
 	}
-	switch hd.(type) {
+	switch x := hd.(type) {
 	case *verifConn:
 		kind = "conn"
+		if x == v.conn2 {
+			kind = "conn2"
+		}
 	case *closedLocalConn:
 		kind = "local"
 	case *closedRemoteConn:
